@@ -33,6 +33,19 @@ def run():
                           flushers=("F1",) if (quick or pol != "immediate") else (), invs=U.INV_C20)
         ctx.l1("Upstream", cfg, timeout=1500)
         os.remove(os.path.join(SPEC, cfg))
+    # the Flush protocol with callers that give up (before / after the hand-over to the flush loop): FlushBarrier holds as coded (unbuffered
+    # result channel); the variant with a buffered result channel hands a later caller the result of an earlier flush
+    cfg = U.write_cfg("Upstream_c20_abandon.cfg", policy="none", thr=THR, maxw=2, sizes=(1,), zero=False, dups=0, acks=1, grants=False,
+                      writers=("W1",), flushers=("F1", "F2"), invs=U.INV_C20, flush_abandon=True)
+    ctx.l1("Upstream", cfg, timeout=900)
+    os.remove(os.path.join(SPEC, cfg))
+    cfg = U.write_cfg("Upstream_c20_abandon_buffered.cfg", policy="none", thr=THR, maxw=2, sizes=(1,), zero=False, dups=0, acks=1, grants=False,
+                      writers=("W1",), flushers=("F1", "F2"), invs=U.INV_C20, flush_abandon=True, flush_res_buffered=True)
+    r = ctx.l1("Upstream", cfg, timeout=900, must_hold=False)
+    os.remove(os.path.join(SPEC, cfg))
+    if r.violated != "FlushBarrier":
+        from vlib import Inconclusive
+        raise Inconclusive("variant FlushResBuffered = TRUE should violate FlushBarrier, TLC says %s" % (r.violated or r.error or "nothing"))
     scs = []
     for pol in ["none", "size", "immediate"]:
         scripts = sim_scripts(ctx, pol, 200 if quick else 2000, 5, (0, 1, 3, 4, 5, 9))
